@@ -26,7 +26,7 @@ class C14(Prop):
     ]
     rule = ("soc instances for both rules and soi (truncated) for fallback: 1-6 alternatives, shared first choices, "
             "first-round majorities planted, multiplicities 1-9; non-trivial = >= 2 distinct orders")
-    budget = {"quick": 400, "thorough": 4000}
+    budget = {"quick": 400, "thorough": 40000}
     impl_limit = 2.0
     anchors = [("preflibtools.aggregation.singlewinner", "fallback_voting_winner"),
                ("preflibtools.aggregation.singlewinner", "bucklin_voting_winner")]
